@@ -38,6 +38,7 @@ DeclClass(ts, role, id) ==
   CASE cx = "unsafe" -> "U"
     [] cx = "safe"   -> "S"
     [] OTHER -> IF role \in {"typename", "typefmt", "ifacetype"} \/ t.k = "nil" THEN "S"    \* names and <nil> are structure
+                ELSE IF t.k \in {"rstring", "rbytes"} THEN "S"            \* what a redactable shows outside its own envelopes
                 ELSE IF role = "ret" /\ t.k = "obj" /\ "SM" \in t.caps /\ "SF" \notin t.caps THEN "S"   \* SafeMessage text
                 ELSE "U"
 TokClass(ts, rt, x) ==
@@ -53,7 +54,7 @@ C05Holds(k, r) ==
   DeleteEnvelopes(out) = SelectSeq(Strip(out), LAMBDA x : ~IsTok(x) \/ TokClass(k.ts, r.rt, x) = "S")
 
 \* C06 on the slice "wrap": root = <<x, wrapper nesting>>
-Outermost(w) == IF w \in {"U", "US", "UUS", "USU", "inU"} THEN "U" ELSE "S"
+Outermost(w) == IF w \in {"U", "US", "UUS", "USU", "inU", "UstS", "UrvS"} THEN "U" ELSE "S"
 C06Holds(k, r) ==
   LET out == Out(r) IN
   IF Outermost(root[2]) = "U"
@@ -91,12 +92,15 @@ C17Holds(k, r) ==
   LET e == HookErr(root[1], 10)
       dispatched == /\ HookKind # "none"
                     /\ IsError(e) /\ "SF" \notin e.caps /\ "SM" \notin e.caps /\ "NILP" \notin e.caps
-                    /\ root[2] \notin {"unsafe", "inUnsafe", "fieldu"}
+                    /\ root[2] \notin {"unsafe", "inUnsafe", "inUnsafe2", "inUnsafe3", "fieldu", "u8slice"}
                     \* %w on an operand that is not itself the error is a bad verb, whose inner rendering
                     \* (erroring) involves no method dispatch
                     /\ (k.e = "Errorf" => root[2] \in {"top", "safe"})
       hc == HookCalls(r)
-  IN IF dispatched
+  IN IF root[2] = "u8slice"
+     THEN \* both elements reach the hook unless the verb is one of the byte-string verbs (s q x X -> fmtBytes)
+          (HookKind # "none" /\ k.e = "Sprintf" /\ Len(k.ts) = 1 /\ k.f[Len(k.f) - 2] \in {VV, VD}) => (Len(hc) = 2)
+     ELSE IF dispatched
      THEN /\ Len(hc) >= 1 /\ \A i \in 1..Len(hc) : hc[i].id = e.id
           \* ... and the error's own methods render nothing unless the hook asks for them
           /\ \A i \in 1..Len(r.calls) : r.calls[i].m \in {"Hook", "Error"}
